@@ -183,11 +183,14 @@ namespace DFS
   (DataAccess& media,
    std::function<bool(const byte* begin, const byte* end)> visitor) const
   {
-    const sector_count_type start = start_sector(), end=last_sector();
+    // end is one past the last sector of the body; a zero-length
+    // file has no body sectors to read at all (its start sector may
+    // even be just beyond the end of a full disc).
+    const sector_count_type start = start_sector(), end=end_sector();
     unsigned long len = file_length();
-    for (sector_count_type sec = start; sec <= end; ++sec)
+    for (sector_count_type sec = start; sec < end; ++sec)
       {
-	assert(sec <= end);
+	assert(sec < end);
 	auto buf = media.read_block(sec);
 	if (!buf)
 	  throw BadFileSystem("end of media or unreadable sector in body of file");
